@@ -27,6 +27,22 @@ deriving Repr, DecidableEq
 inductive MaxArg | unlimited | default | custom (bytes : Nat)
 deriving Repr, DecidableEq
 
+/-- topics/consumer_group.rs: ConsumerGroupMember. `share` = its partitions in index order. -/
+structure Member where
+  id : Nat                      -- client id
+  share : List Nat
+  idx : Option Nat              -- current_partition_index
+  cur : Option Nat              -- current_partition_id
+deriving Repr, DecidableEq
+
+/-- topics/consumer_group.rs: ConsumerGroup. `members` in the implementation's (hash-map) order. -/
+structure Group where
+  id : Nat
+  name : String
+  nparts : Nat
+  members : List Member
+deriving Repr, DecidableEq
+
 structure Topic where
   id : Nat
   name : String
@@ -35,6 +51,8 @@ structure Topic where
   maxSize : Option Nat          -- resolved max size, bytes; none = unlimited
   repl : Nat
   cursor : Nat                  -- current_partition_id (balanced sends)
+  groups : List (Nat × Group) := []   -- ascending ids
+  groupCursor : Nat := 1        -- current_consumer_group_id
 deriving Repr
 
 structure Stream where
@@ -44,12 +62,32 @@ structure Stream where
   topicCursor : Nat             -- current_topic_id
 deriving Repr
 
+/-- what a handler writes to the state journal after a successful change (state/command.rs), with
+the ids actually assigned (fix 3ab0310) and the resolved expiry / max size -/
+inductive Entry
+  | createStream (id : Nat) (name : String)
+  | updateStream (s : Ident) (name : String)
+  | deleteStream (s : Ident)
+  | purgeStream (s : Ident)
+  | createTopic (s : Ident) (id : Nat) (name : String) (nparts : Nat) (expiry maxSize : Option Nat) (repl : Option Nat)
+  | updateTopic (s t : Ident) (name : String) (expiry maxSize : Option Nat) (repl : Option Nat)
+  | deleteTopic (s t : Ident)
+  | purgeTopic (s t : Ident)
+  | createParts (s t : Ident) (n : Nat)
+  | deleteParts (s t : Ident) (n : Nat)
+  | createGroup (s t : Ident) (id : Nat) (name : String)
+  | deleteGroup (s t g : Ident)
+deriving Repr, DecidableEq
+
 structure Sys where
   cfg : Cfg
   scfg : SCfg
   now : Nat
   streams : List (Nat × Stream) -- ascending ids
   streamCursor : Nat            -- CURRENT_STREAM_ID (process-global, restarts at 1)
+  clients : List (Nat × Nat) := []          -- connection ↦ client id (assigned by the server)
+  memberships : List (Nat × List (Nat × Nat × Nat)) := []  -- client id ↦ (stream, topic, group) joined
+  journal : List Entry := []
 deriving Repr
 
 abbrev PKey := Nat × Nat × Nat   -- (stream, topic, partition)
@@ -81,6 +119,7 @@ deriving Repr, DecidableEq
 inductive Op
   | clock (t : Nat)
   | createStream (id : Option Nat) (name : String)
+  | updateStream (s : Ident) (name : String)
   | deleteStream (s : Ident)
   | purgeStream (s : Ident)
   | createTopic (s : Ident) (id : Option Nat) (name : String) (nparts : Nat) (e : ExpiryArg)
@@ -90,17 +129,28 @@ inductive Op
   | purgeTopic (s t : Ident)
   | createParts (s t : Ident) (n : Nat)
   | deleteParts (s t : Ident) (n : Nat)
+  | createGroup (s t : Ident) (id : Option Nat) (name : String)
+  | deleteGroup (s t g : Ident)
+  | join (c : Nat) (s t g : Ident)
+  | leave (c : Nat) (s t g : Ident)
+  | groupInfo (s t g : Ident) (order : List Nat)   -- `order`: member ids as the implementation lists them
+  | groups (s t : Ident)
+  | me (c : Nat) (clientId : Nat)                  -- `clientId`: assigned by the server, observed
+  | close (c : Nat)
   | send (s t : Ident) (p : Partitioning) (msgs : List InMsg)
-  | poll (s t : Ident) (pid : Option Nat) (c : Consumer) (k : PollKind) (count : Nat) (auto : Bool)
+  | poll (c : Nat) (s t : Ident) (pid : Option Nat) (cons : Consumer) (k : PollKind) (count : Nat) (auto : Bool)
   | flush (s t : Ident) (pid : Nat)
-  | storeOffset (s t : Ident) (pid : Option Nat) (c : Consumer) (off : Nat)
-  | getOffset (s t : Ident) (pid : Option Nat) (c : Consumer)
-  | deleteOffset (s t : Ident) (pid : Option Nat) (c : Consumer)
+  | storeOffset (c : Nat) (s t : Ident) (pid : Option Nat) (cons : Consumer) (off : Nat)
+  | getOffset (c : Nat) (s t : Ident) (pid : Option Nat) (cons : Consumer)
+  | deleteOffset (c : Nat) (s t : Ident) (pid : Option Nat) (cons : Consumer)
   | save
   | maintain
   | restart (cacheLens : List (PKey × Nat))
   | evict (s t : Ident) (pid keep : Nat)
   | topicInfo (s t : Ident)
+  | topics (s : Ident)
+  | streamInfo (s : Ident)
+  | streams
   | stats
 deriving Repr
 
@@ -120,7 +170,10 @@ inductive Out
   | offset (info : Option (Nat × Nat × Nat))   -- partition, current, stored
   | topic (id : Nat) (name : String) (nparts : Nat) (expiry maxSize : Option Nat) (repl : Nat)
       (msgs size : Nat) (parts : List PartInfo)
-  | stats (streams topics parts segs msgs size : Nat)
+  | stats (streams topics parts segs msgs size groups : Nat)
+  | group (id : Nat) (name : String) (nparts : Nat) (members : List (Nat × List Nat))
+  | me (clientId : Nat) (groups : List (Nat × Nat × Nat))
+  | text (s : String)            -- listings (streams / topics / groups), canonical text
   | none'
 deriving Repr, DecidableEq
 
@@ -286,6 +339,234 @@ def Sys.allKeys (y : Sys) : List PKey :=
   (y.streams.map (fun se => (se.2.topics.map (fun te =>
       te.2.parts.map (fun pe => (se.1, te.1, pe.1)))).flatten)).flatten
 
+/-! ## consumer groups (topics/consumer_group.rs) -/
+
+/-- assign_partitions: clear every member, then partition `i+1` goes to member `i mod m` (in the
+given member order); each member's cursor points at its first partition -/
+def assignShares (nparts : Nat) (members : List Member) : List Member :=
+  let m := members.length
+  if m = 0 then members else
+  members.zipIdx.map (fun mj =>
+    let share := (List.range nparts).filterMap (fun i => if i % m = mj.2 then some (i + 1) else none)
+    { mj.1 with share := share, idx := if share.isEmpty then none else some 0, cur := share.head? })
+
+def Group.assign (g : Group) : Group := { g with members := assignShares g.nparts g.members }
+
+/-- add_member: insert (replacing a member with the same id), then reassign -/
+def Group.addMember (g : Group) (id : Nat) : Group :=
+  Group.assign { g with members := g.members.filter (fun m => m.id ≠ id) ++
+    [{ id := id, share := [], idx := none, cur := none }] }
+
+/-- delete_member: reassign only if the member existed -/
+def Group.deleteMember (g : Group) (id : Nat) : Group :=
+  if g.members.any (fun m => m.id = id) then
+    Group.assign { g with members := g.members.filter (fun m => m.id ≠ id) }
+  else g
+
+/-- reassign_partitions -/
+def Group.setParts (g : Group) (n : Nat) : Group := Group.assign { g with nparts := n }
+
+/-- the hash-map order is an input: adopt the observed order (when it is a permutation of the
+members) and redo the assignment if the order changed -/
+def Group.adoptOrder (g : Group) (order : List Nat) : Group :=
+  let ms := order.filterMap (fun id => g.members.find? (fun m => m.id = id))
+  if ms.length = g.members.length ∧ order.length = g.members.length ∧ ms.map (·.id) ≠ g.members.map (·.id)
+  then Group.assign { g with members := ms } else g
+
+/-- ConsumerGroupMember::calculate_partition_id: rotation over the member's share -/
+def Member.calc (m : Member) : Option Nat × Member :=
+  match m.idx with
+  | none => (none, m)
+  | some i =>
+    match m.share[i]? with
+    | none => (none, m)
+    | some pid => (some pid, { m with cur := some pid, idx := some (if m.share.length ≤ i + 1 then 0 else i + 1) })
+
+def Topic.findGroup (t : Topic) : Ident → Except String Group
+  | .num n => match find? t.groups n with
+    | some g => .ok g | none => .error "consumer_group_id_not_found"
+  | .name nm => match t.groups.find? (fun e => e.2.name = nm) with
+    | some e => .ok e.2 | none => .error "consumer_group_name_not_found"
+
+def Topic.putGroup (t : Topic) (g : Group) : Topic := { t with groups := insertAsc t.groups g.id g }
+
+/-- reassign_consumer_groups after a change of the partition count -/
+def Topic.reassignGroups (t : Topic) : Topic :=
+  { t with groups := t.groups.map (fun e => (e.1, e.2.setParts t.parts.length)) }
+
+/-- resolve_consumer_with_partition_id: which partition a request is about. `calc`: rotate (polls) or
+read the current partition (offset calls): `rotate`. `none` = no partition assigned. -/
+def Topic.resolve (t : Topic) (cons : Consumer) (client : Nat) (pid : Option Nat) (rotate : Bool) :
+    Except String (Option Nat × Topic) :=
+  if !cons.grp then .ok (some (pid.getD 1), t) else
+  match find? t.groups cons.id with
+  | none => .error "consumer_group_id_not_found"
+  | some g =>
+    match pid with
+    | some p => .ok (some p, t)
+    | none =>
+      match g.members.find? (fun m => m.id = client) with
+      | none => .error "consumer_group_member_not_found"
+      | some m =>
+        if rotate then
+          let (r, m') := m.calc
+          .ok (r, t.putGroup { g with members := g.members.map (fun x => if x.id = client then m' else x) })
+        else .ok (m.cur, t)
+
+/-! ## journal replay (state/system.rs) and start-up (systems/streams.rs load_streams, streams/storage.rs,
+topics/storage.rs) -/
+
+structure RTopic where
+  id : Nat
+  name : String
+  nparts : Nat
+  expiry : Option Nat
+  maxSize : Option Nat
+  repl : Option Nat
+  groups : List (Nat × String) := []
+deriving Repr, DecidableEq
+
+structure RStream where
+  id : Nat
+  name : String
+  topics : List (Nat × RTopic) := []
+deriving Repr, DecidableEq
+
+/-- replayed catalogue; `panicked`: an `unwrap_or_else(panic!)` arm of the replay was hit -/
+structure RCat where
+  streams : List (Nat × RStream) := []
+  panicked : Bool := false
+deriving Repr, DecidableEq
+
+def RCat.findStreamId (r : RCat) : Ident → Option Nat
+  | .num n => some n
+  | .name nm => (r.streams.find? (fun e => e.2.name = nm)).map (·.1)
+
+def RStream.findTopicId (s : RStream) : Ident → Option Nat
+  | .num n => some n
+  | .name nm => (s.topics.find? (fun e => e.2.name = nm)).map (·.1)
+
+def RTopic.findGroupId (t : RTopic) : Ident → Option Nat
+  | .num n => some n
+  | .name nm => (t.groups.find? (fun e => e.2 = nm)).map (·.1)
+
+def RCat.panic (r : RCat) : RCat := { r with panicked := true }
+
+def RCat.withStream (r : RCat) (si : Ident) (f : RStream → Option RStream) : RCat :=
+  match r.findStreamId si with
+  | none => r.panic
+  | some sid => match find? r.streams sid with
+    | none => r.panic
+    | some s => match f s with
+      | none => r.panic
+      | some s' => { r with streams := insertAsc r.streams sid s' }
+
+def RStream.withTopic (s : RStream) (ti : Ident) (f : RTopic → RTopic) : Option RStream :=
+  match s.findTopicId ti with
+  | none => none
+  | some tid => match find? s.topics tid with
+    | none => none
+    | some t => some { s with topics := insertAsc s.topics tid (f t) }
+
+/-- one entry of SystemState::init -/
+def applyEntry (r : RCat) : Entry → RCat
+  | .createStream id name =>
+    let s : RStream := { id := id, name := name }
+    { r with streams := insertAsc r.streams id s }
+  | .updateStream si name => r.withStream si (fun s => some { s with name := name })
+  | .deleteStream si => match r.findStreamId si with
+    | none => r.panic
+    | some sid => { r with streams := erase r.streams sid }
+  | .purgeStream si => r.withStream si some
+  | .createTopic si id name n e m repl => r.withStream si (fun s =>
+      let t : RTopic := { id := id, name := name, nparts := n, expiry := e, maxSize := m, repl := repl }
+      some { s with topics := insertAsc s.topics id t })
+  | .updateTopic si ti name e m repl => r.withStream si (fun s =>
+      s.withTopic ti (fun t => { t with name := name, expiry := e, maxSize := m, repl := repl }))
+  | .deleteTopic si ti => r.withStream si (fun s =>
+      (s.findTopicId ti).map (fun tid => { s with topics := erase s.topics tid }))
+  | .purgeTopic si ti => r.withStream si (fun s => s.withTopic ti id)
+  | .createParts si ti n => r.withStream si (fun s => s.withTopic ti (fun t => { t with nparts := t.nparts + n }))
+  | .deleteParts si ti n => r.withStream si (fun s => s.withTopic ti (fun t => { t with nparts := t.nparts - n }))
+  | .createGroup si ti id name => r.withStream si (fun s =>
+      s.withTopic ti (fun t => { t with groups := insertAsc t.groups id name }))
+  | .deleteGroup si ti gi => r.withStream si (fun s =>
+      s.withTopic ti (fun t => match t.findGroupId gi with
+        | none => t
+        | some gid => { t with groups := erase t.groups gid }))
+
+def replay (js : List Entry) : RCat := js.foldl applyEntry {}
+
+/-- start-up: the catalogue is what the replay says; a partition keeps its files if its directory
+exists (same stream/topic/partition ids), otherwise it is re-created empty; directories the replayed
+state does not know are removed. Consumer-group offsets of groups unknown to the state stay in the
+partition files. Cursors restart at 1. -/
+def loadCatalog (y : Sys) (r : RCat) (cacheLens : List (PKey × Nat)) : Sys :=
+  let streams := r.streams.map (fun se =>
+    let old := find? y.streams se.1
+    let topics := se.2.topics.map (fun te =>
+      let oldT := old.bind (fun s => find? s.topics te.1)
+      let parts := (List.range te.2.nparts).map (fun i =>
+        let pid := i + 1
+        let p := match oldT.bind (fun t => find? t.parts pid) with
+          | some p =>
+            let p0 : Part := { p with expiry := te.2.expiry }
+            Part.restart y.cfg p0 y.now (((cacheLens.find? (fun e => e.1 = (se.1, te.1, pid))).map (·.2)).getD 0)
+          | none => Part.create y.cfg te.2.expiry y.now
+        (pid, p))
+      let t : Topic := { id := te.1, name := te.2.name, parts := parts, expiry := te.2.expiry,
+                         maxSize := te.2.maxSize, repl := te.2.repl.getD 1, cursor := 1,
+                         groups := te.2.groups.map (fun ge =>
+                           (ge.1, { id := ge.1, name := ge.2, nparts := te.2.nparts, members := [] })),
+                         groupCursor := 1 }
+      (te.1, t))
+    (se.1, ({ id := se.1, name := se.2.name, topics := topics, topicCursor := 1 } : Stream)))
+  { y with streams := streams, streamCursor := 1, clients := [], memberships := [] }
+
+/-! ## listings -/
+
+def showOpt (none' : String) : Option Nat → String
+  | none => none'
+  | some n => toString n
+
+def topicLine (t : Topic) : String :=
+  s!"{t.id}:{t.name}:{t.parts.length}:{showOpt "never" t.expiry}:{showOpt "unlimited" t.maxSize}:{t.repl}:{t.msgs}:{t.size}"
+
+def streamLine (s : Stream) : String := s!"{s.id}:{s.name}:{s.topics.length}:{s.msgs}:{s.size}"
+
+def keyLe (a b : Nat × Nat × Nat) : Bool :=
+  a.1 < b.1 || (a.1 = b.1 && (a.2.1 < b.2.1 || (a.2.1 = b.2.1 && a.2.2 ≤ b.2.2)))
+
+def insertKey (k : Nat × Nat × Nat) : List (Nat × Nat × Nat) → List (Nat × Nat × Nat)
+  | [] => [k]
+  | x :: rest => if keyLe k x then k :: x :: rest else x :: insertKey k rest
+
+def sortKeys (l : List (Nat × Nat × Nat)) : List (Nat × Nat × Nat) := l.foldr insertKey []
+
+def Sys.clientOf (y : Sys) (c : Nat) : Nat := (find? y.clients c).getD 0
+
+def Sys.journalAdd (y : Sys) (e : Entry) : Sys := { y with journal := y.journal ++ [e] }
+
+/-- remove client memberships that satisfy `f` (delete stream / topic / group) -/
+def Sys.dropMemberships (y : Sys) (f : Nat × Nat × Nat → Bool) : Sys :=
+  { y with memberships := y.memberships.map (fun e => (e.1, e.2.filter (fun k => !f k))) }
+
+def Sys.withTopic (y : Sys) (si ti : Ident) (f : Stream → Topic → Sys × Out × List Effect) :
+    Sys × Out × List Effect :=
+  match y.findStream si with
+  | .error e => (y, .err e, [])
+  | .ok s =>
+    match s.findTopic ti with
+    | .error e => (y, .err e, [])
+    | .ok t => f s t
+
+def Sys.withPart (y : Sys) (si ti : Ident) (pid : Nat) (f : Stream → Topic → Part → Sys × Out × List Effect) :
+    Sys × Out × List Effect :=
+  y.withTopic si ti (fun s t =>
+    match find? t.parts pid with
+    | none => (y, .err "partition_not_found", [])
+    | some p => f s t p)
+
 def step (y : Sys) : Op → Sys × Out × List Effect
   | .clock t => ({ y with now := t }, .ok, [])
   | .createStream id name =>
@@ -295,21 +576,29 @@ def step (y : Sys) : Op → Sys × Out × List Effect
       | none => allocId (fun i => (find? y.streams i).isSome) y.streamCursor (y.streams.length + 1)
     if (find? y.streams sid).isSome then ({ y with streamCursor := cursor }, .err "stream_id_already_exists", []) else
     let s : Stream := { id := sid, name := name, topics := [], topicCursor := 1 }
-    ({ y with streams := insertAsc y.streams sid s, streamCursor := cursor }, .okId sid, [])
+    (({ y with streams := insertAsc y.streams sid s, streamCursor := cursor } : Sys).journalAdd
+      (.createStream sid name), .okId sid, [])
+  | .updateStream si name =>
+    match y.findStream si with
+    | .error e => (y, .err e, [])
+    | .ok s =>
+      if y.streams.any (fun e => e.2.name = name ∧ e.1 ≠ s.id) then (y, .err "stream_name_already_exists", []) else
+      ((y.putStream { s with name := name }).journalAdd (.updateStream si name), .ok, [])
   | .deleteStream si =>
     match y.findStream si with
     | .error e => (y, .err e, [])
     | .ok s =>
       let effs := (s.topics.map (fun te => te.2.parts.map (fun pe => Effect.deleted (s.id, te.1, pe.1)))).flatten
-      ({ y with streams := erase y.streams s.id
-                streamCursor := if s.id < y.streamCursor then s.id else y.streamCursor }, .ok, effs)
+      let y' : Sys := { y with streams := erase y.streams s.id
+                               streamCursor := if s.id < y.streamCursor then s.id else y.streamCursor }
+      (((y'.dropMemberships (fun k => k.1 = s.id)).journalAdd (.deleteStream si)), .ok, effs)
   | .purgeStream si =>
     match y.findStream si with
     | .error e => (y, .err e, [])
     | .ok s =>
       let s' := { s with topics := s.topics.map (fun te => (te.1, mapParts te.2 (fun p => p.purge y.cfg y.now))) }
       let effs := (s.topics.map (fun te => te.2.parts.map (fun pe => Effect.purged (s.id, te.1, pe.1)))).flatten
-      (y.putStream s', .ok, effs)
+      ((y.putStream s').journalAdd (.purgeStream si), .ok, effs)
   | .createTopic si id name nparts e m repl =>
     match y.findStream si with
     | .error e => (y, .err e, [])
@@ -326,145 +615,173 @@ def step (y : Sys) : Op → Sys × Out × List Effect
         let expiry := resolveExpiry y.scfg e
         let t : Topic := { id := tid, name := name, parts := mkParts y.cfg expiry y.now 1 nparts,
                            expiry := expiry, maxSize := maxSize, repl := repl.getD 1, cursor := 1 }
-        (y.putTopic s t, .okId tid,
+        ((y.putTopic s t).journalAdd (.createTopic si tid name nparts expiry maxSize repl), .okId tid,
           (List.range nparts).map (fun i => Effect.created (s.id, tid, 1 + i) expiry))
   | .updateTopic si ti name e m repl =>
-    match y.findStream si with
-    | .error e => (y, .err e, [])
-    | .ok s =>
-      match s.findTopic ti with
+    y.withTopic si ti (fun s t =>
+      match resolveMax y.cfg y.scfg m with
       | .error e => (y, .err e, [])
-      | .ok t =>
-        match resolveMax y.cfg y.scfg m with
-        | .error e => (y, .err e, [])
-        | .ok maxSize =>
-          if s.topics.any (fun te => te.2.name = name ∧ te.1 ≠ t.id) then
-            (y, .err "topic_name_already_exists", []) else
-          let expiry := resolveExpiry y.scfg e
-          let t' := { t with name := name, expiry := expiry, maxSize := maxSize, repl := repl.getD 1,
-                             parts := t.parts.map (fun pe => (pe.1, { pe.2 with expiry := expiry })) }
-          (y.putTopic s t', .ok, t.parts.map (fun pe => Effect.setExpiry (s.id, t.id, pe.1) expiry))
+      | .ok maxSize =>
+        if s.topics.any (fun te => te.2.name = name ∧ te.1 ≠ t.id) then
+          (y, .err "topic_name_already_exists", []) else
+        let expiry := resolveExpiry y.scfg e
+        let t' := { t with name := name, expiry := expiry, maxSize := maxSize, repl := repl.getD 1,
+                           parts := t.parts.map (fun pe => (pe.1, { pe.2 with expiry := expiry })) }
+        ((y.putTopic s t').journalAdd (.updateTopic si ti name expiry maxSize repl), .ok,
+          t.parts.map (fun pe => Effect.setExpiry (s.id, t.id, pe.1) expiry)))
   | .deleteTopic si ti =>
-    match y.findStream si with
-    | .error e => (y, .err e, [])
-    | .ok s =>
-      match s.findTopic ti with
-      | .error e => (y, .err e, [])
-      | .ok t =>
-        let s' := { s with topics := erase s.topics t.id
-                           topicCursor := if t.id < s.topicCursor then t.id else s.topicCursor }
-        (y.putStream s', .ok, t.parts.map (fun pe => Effect.deleted (s.id, t.id, pe.1)))
+    y.withTopic si ti (fun s t =>
+      let s' := { s with topics := erase s.topics t.id
+                         topicCursor := if t.id < s.topicCursor then t.id else s.topicCursor }
+      ((((y.putStream s').dropMemberships (fun k => k.1 = s.id ∧ k.2.1 = t.id)).journalAdd (.deleteTopic si ti)),
+        .ok, t.parts.map (fun pe => Effect.deleted (s.id, t.id, pe.1))))
   | .purgeTopic si ti =>
-    match y.findStream si with
-    | .error e => (y, .err e, [])
-    | .ok s =>
-      match s.findTopic ti with
-      | .error e => (y, .err e, [])
-      | .ok t =>
-        (y.putTopic s (mapParts t (fun p => p.purge y.cfg y.now)), .ok,
-          t.parts.map (fun pe => Effect.purged (s.id, t.id, pe.1)))
+    y.withTopic si ti (fun s t =>
+      ((y.putTopic s (mapParts t (fun p => p.purge y.cfg y.now))).journalAdd (.purgeTopic si ti), .ok,
+        t.parts.map (fun pe => Effect.purged (s.id, t.id, pe.1))))
   | .createParts si ti n =>
-    match y.findStream si with
-    | .error e => (y, .err e, [])
-    | .ok s =>
-      match s.findTopic ti with
-      | .error e => (y, .err e, [])
-      | .ok t =>
-        let k := t.parts.length
-        let t' := { t with parts := t.parts ++ mkParts y.cfg t.expiry y.now (k + 1) n }
-        (y.putTopic s t', .ok, (List.range n).map (fun i => Effect.created (s.id, t.id, k + 1 + i) t.expiry))
+    y.withTopic si ti (fun s t =>
+      let k := t.parts.length
+      let t' := Topic.reassignGroups { t with parts := t.parts ++ mkParts y.cfg t.expiry y.now (k + 1) n }
+      ((y.putTopic s t').journalAdd (.createParts si ti n), .ok,
+        (List.range n).map (fun i => Effect.created (s.id, t.id, k + 1 + i) t.expiry)))
   | .deleteParts si ti n =>
-    match y.findStream si with
-    | .error e => (y, .err e, [])
-    | .ok s =>
-      match s.findTopic ti with
+    y.withTopic si ti (fun s t =>
+      let k := t.parts.length
+      let n' := min n k
+      let t' := Topic.reassignGroups { t with parts := t.parts.take (k - n') }
+      ((y.putTopic s t').journalAdd (.deleteParts si ti n), .ok,
+        (List.range n').map (fun i => Effect.deleted (s.id, t.id, k - n' + 1 + i))))
+  | .createGroup si ti id name =>
+    y.withTopic si ti (fun s t =>
+      if t.groups.any (fun ge => ge.2.name = name) then (y, .err "consumer_group_name_already_exists", []) else
+      let (gid, cursor) := match id with
+        | some i => (i, t.groupCursor)
+        | none => allocId (fun i => (find? t.groups i).isSome) t.groupCursor (t.groups.length + 1)
+      let t := { t with groupCursor := cursor }
+      if (find? t.groups gid).isSome then (y.putTopic s t, .err "consumer_group_id_already_exists", []) else
+      let g : Group := { id := gid, name := name, nparts := t.parts.length, members := [] }
+      ((y.putTopic s (t.putGroup g)).journalAdd (.createGroup si ti gid name), .okId gid, []))
+  | .deleteGroup si ti gi =>
+    y.withTopic si ti (fun s t =>
+      match t.findGroup gi with
       | .error e => (y, .err e, [])
-      | .ok t =>
-        let k := t.parts.length
-        let n := min n k
-        let t' := { t with parts := t.parts.take (k - n) }
-        (y.putTopic s t', .ok, (List.range n).map (fun i => Effect.deleted (s.id, t.id, k - n + 1 + i)))
+      | .ok g =>
+        let t' := { t with groups := erase t.groups g.id
+                           groupCursor := if g.id < t.groupCursor then g.id else t.groupCursor
+                           parts := t.parts.map (fun pe => (pe.1, { pe.2 with grpOffs := eraseK pe.2.grpOffs g.id })) }
+        ((((y.putTopic s t').dropMemberships (fun k => k = (s.id, t.id, g.id))).journalAdd (.deleteGroup si ti gi)),
+          .ok, t.parts.filterMap (fun pe =>
+            if (lookup pe.2.grpOffs g.id).isSome then some (Effect.offDeleted (s.id, t.id, pe.1) true g.id) else none)))
+  | .join c si ti gi =>
+    y.withTopic si ti (fun s t =>
+      match t.findGroup gi with
+      | .error e => (y, .err e, [])
+      | .ok g =>
+        let client := y.clientOf c
+        let y' := y.putTopic s (t.putGroup (g.addMember client))
+        let key := (s.id, t.id, g.id)
+        let cur := (find? y'.memberships client).getD []
+        let cur' := if cur.contains key then cur else cur ++ [key]
+        ({ y' with memberships := insertAsc y'.memberships client cur' }, .ok, []))
+  | .leave c si ti gi =>
+    y.withTopic si ti (fun s t =>
+      match t.findGroup gi with
+      | .error e => (y, .err e, [])
+      | .ok g =>
+        let client := y.clientOf c
+        let y' := y.putTopic s (t.putGroup (g.deleteMember client))
+        let key := (s.id, t.id, g.id)
+        ({ y' with memberships := y'.memberships.map (fun e =>
+            if e.1 = client then (e.1, e.2.filter (· ≠ key)) else e) }, .ok, []))
+  | .groupInfo si ti gi order =>
+    y.withTopic si ti (fun s t =>
+      match t.findGroup gi with
+      | .error _ => (y, .none', [])
+      | .ok g =>
+        let g' := g.adoptOrder order
+        (y.putTopic s (t.putGroup g'), .group g'.id g'.name g'.nparts (g'.members.map (fun m => (m.id, m.share))), []))
+  | .groups si ti =>
+    y.withTopic si ti (fun _ t =>
+      (y, .text (",".intercalate (t.groups.map (fun ge =>
+        s!"{ge.1}:{ge.2.name}:{ge.2.nparts}:{ge.2.members.length}"))), []))
+  | .me c clientId =>
+    let y' := { y with clients := insertAsc y.clients c clientId }
+    (y', .me clientId (sortKeys ((find? y'.memberships clientId).getD [])), [])
+  | .close c =>
+    -- systems/clients.rs: delete_client leaves every group the client had joined
+    let client := y.clientOf c
+    let keys := (find? y.memberships client).getD []
+    let y' := keys.foldl (fun (acc : Sys) k =>
+      match find? acc.streams k.1 with
+      | none => acc
+      | some s => match find? s.topics k.2.1 with
+        | none => acc
+        | some t => match find? t.groups k.2.2 with
+          | none => acc
+          | some g => acc.putTopic s (t.putGroup (g.deleteMember client))) y
+    ({ y' with memberships := erase y'.memberships client, clients := erase y'.clients c }, .ok, [])
   | .send si ti part msgs =>
-    match y.findStream si with
-    | .error e => (y, .err e, [])
-    | .ok s =>
-      match s.findTopic ti with
-      | .error e => (y, .err e, [])
-      | .ok t =>
-        let (t', out, effs) := t.send y.cfg y.scfg s.id y.now part msgs
-        (y.putTopic s t', out, effs)
-  | .poll si ti pid c k count auto =>
+    y.withTopic si ti (fun s t =>
+      let (t', out, effs) := t.send y.cfg y.scfg s.id y.now part msgs
+      (y.putTopic s t', out, effs))
+  | .poll c si ti pid cons k count auto =>
     if count = 0 then (y, .err "invalid_messages_count", []) else
-    match y.findStream si with
-    | .error e => (y, .err e, [])
-    | .ok s =>
-      match s.findTopic ti with
+    y.withTopic si ti (fun s t =>
+      if t.parts.isEmpty then (y, .err "no_partitions", []) else
+      match t.resolve cons (y.clientOf c) pid true with
       | .error e => (y, .err e, [])
-      | .ok t =>
-        if t.parts.isEmpty then (y, .err "no_partitions", []) else
-        let pid := pid.getD 1            -- consumer groups: Iggy/Group (later stage)
+      | .ok (none, t) => (y.putTopic s t, .polled 0 0 [], [])
+      | .ok (some pid, t) =>
+        let y := y.putTopic s t
         match find? t.parts pid with
         | none => (y, .err "partition_not_found", [])
         | some p =>
-          let ms := pollPart p c k count
+          let ms := pollPart p cons k count
           match ms.getLast? with
           | none => (y, .polled pid p.cur [], [])
           | some last =>
             if auto then
-              match p.storeOffset c.grp c.id last.off with
+              match p.storeOffset cons.grp cons.id last.off with
               | .error e => (y, .err (errOf e), [])
               | .ok p' => (y.putTopic s (t.putPart pid p'), .polled pid p.cur ms,
-                            [.offStored (s.id, t.id, pid) c.grp c.id last.off])
-            else (y, .polled pid p.cur ms, [])
+                            [.offStored (s.id, t.id, pid) cons.grp cons.id last.off])
+            else (y, .polled pid p.cur ms, []))
   | .flush si ti pid =>
-    match y.findStream si with
-    | .error e => (y, .err e, [])
-    | .ok s =>
-      match s.findTopic ti with
+    y.withPart si ti pid (fun s t p => (y.putTopic s (t.putPart pid (p.flush y.cfg)), .ok, []))
+  | .storeOffset c si ti pid cons off =>
+    y.withTopic si ti (fun s t =>
+      match t.resolve cons (y.clientOf c) pid false with
       | .error e => (y, .err e, [])
-      | .ok t =>
-        match find? t.parts pid with
-        | none => (y, .err "partition_not_found", [])
-        | some p => (y.putTopic s (t.putPart pid (p.flush y.cfg)), .ok, [])
-  | .storeOffset si ti pid c off =>
-    match y.findStream si with
-    | .error e => (y, .err e, [])
-    | .ok s =>
-      match s.findTopic ti with
-      | .error e => (y, .err e, [])
-      | .ok t =>
-        let pid := pid.getD 1
+      | .ok (none, _) => (y, .err "consumer_offset_not_found", [])
+      | .ok (some pid, _) =>
         match find? t.parts pid with
         | none => (y, .err "partition_not_found", [])
         | some p =>
-          match p.storeOffset c.grp c.id off with
+          match p.storeOffset cons.grp cons.id off with
           | .error e => (y, .err (errOf e), [])
-          | .ok p' => (y.putTopic s (t.putPart pid p'), .ok, [.offStored (s.id, t.id, pid) c.grp c.id off])
-  | .getOffset si ti pid c =>
-    match y.findStream si with
-    | .error e => (y, .err e, [])
-    | .ok s =>
-      match s.findTopic ti with
+          | .ok p' => (y.putTopic s (t.putPart pid p'), .ok, [.offStored (s.id, t.id, pid) cons.grp cons.id off]))
+  | .getOffset c si ti pid cons =>
+    y.withTopic si ti (fun s t =>
+      match t.resolve cons (y.clientOf c) pid false with
       | .error e => (y, .err e, [])
-      | .ok t =>
-        let pid := pid.getD 1
+      | .ok (none, _) => (y, .offset none, [])
+      | .ok (some pid, _) =>
         match find? t.parts pid with
         | none => (y, .err "partition_not_found", [])
-        | some p => (y, .offset ((p.getOffset c.grp c.id).map (fun o => (pid, p.cur, o))), [])
-  | .deleteOffset si ti pid c =>
-    match y.findStream si with
-    | .error e => (y, .err e, [])
-    | .ok s =>
-      match s.findTopic ti with
+        | some p => (y, .offset ((p.getOffset cons.grp cons.id).map (fun o => (pid, p.cur, o))), []))
+  | .deleteOffset c si ti pid cons =>
+    y.withTopic si ti (fun s t =>
+      match t.resolve cons (y.clientOf c) pid false with
       | .error e => (y, .err e, [])
-      | .ok t =>
-        let pid := pid.getD 1
+      | .ok (none, _) => (y, .err "consumer_offset_not_found", [])
+      | .ok (some pid, _) =>
         match find? t.parts pid with
         | none => (y, .err "partition_not_found", [])
         | some p =>
-          match p.deleteOffset c.grp c.id with
+          match p.deleteOffset cons.grp cons.id with
           | .error e => (y, .err (errOf e), [])
-          | .ok p' => (y.putTopic s (t.putPart pid p'), .ok, [.offDeleted (s.id, t.id, pid) c.grp c.id])
+          | .ok p' => (y.putTopic s (t.putPart pid p'), .ok, [.offDeleted (s.id, t.id, pid) cons.grp cons.id]))
   | .save => (y.mapAllParts (fun _ p => p.save y.cfg), .ok, [])
   | .maintain =>
     let r := y.streams.map (fun se =>
@@ -472,35 +789,38 @@ def step (y : Sys) : Op → Sys × Out × List Effect
       ((se.1, { se.2 with topics := tr.map (fun x => (x.1, x.2.1)) }), (tr.map (fun x => x.2.2)).flatten))
     ({ y with streams := r.map (·.1) }, .ok, (r.map (·.2)).flatten)
   | .restart cacheLens =>
-    let y' := y.mapAllParts (fun k p =>
-      p.restart y.cfg y.now (((cacheLens.find? (fun e => e.1 = k)).map (·.2)).getD 0))
-    -- process-global stream cursor restarts at 1; topic cursors restart at 1 (Stream::empty / Topic::empty)
-    let y' := { y' with streamCursor := 1 }
-    let y' := y'.mapStreams (fun s =>
-      { (s.mapTopics (fun t => { t with cursor := 1 })) with topicCursor := 1 })
-    (y', .ok, y.allKeys.map Effect.restarted)
+    -- shutdown persists every buffer; start-up rebuilds the catalogue from the journal
+    let r := replay y.journal
+    if r.panicked then (y, .err "replay_panicked", []) else
+    let y' := loadCatalog y r cacheLens
+    let kept := y'.allKeys
+    (y', .ok, (y.allKeys.filter (fun k => !kept.contains k)).map Effect.deleted ++
+              (kept.filter (fun k => !y.allKeys.contains k)).map (fun k => Effect.created k none) ++
+              (kept.filter (fun k => y.allKeys.contains k)).map Effect.restarted)
   | .evict si ti pid keep =>
-    match y.findStream si with
-    | .error e => (y, .err e, [])
-    | .ok s =>
-      match s.findTopic ti with
-      | .error e => (y, .err e, [])
-      | .ok t =>
-        match find? t.parts pid with
-        | none => (y, .err "partition_not_found", [])
-        | some p => (y.putTopic s (t.putPart pid (p.evict keep)), .ok, [])
+    y.withPart si ti pid (fun s t p => (y.putTopic s (t.putPart pid (p.evict keep)), .ok, []))
   | .topicInfo si ti =>
     match y.findStream si with
-    | .error e => (y, .err e, [])
+    | .error _ => (y, .none', [])            -- try_find_topic: an unknown stream is "no such topic"
     | .ok s =>
       match s.findTopic ti with
       | .error _ => (y, .none', [])
       | .ok t => (y, .topic t.id t.name t.parts.length t.expiry t.maxSize t.repl t.msgs t.size
                         (t.parts.map partInfo), [])
+  | .topics si =>
+    match y.findStream si with
+    | .error e => (y, .err e, [])
+    | .ok s => (y, .text (",".intercalate (s.topics.map (fun te => topicLine te.2))), [])
+  | .streamInfo si =>
+    match y.findStream si with
+    | .error _ => (y, .none', [])
+    | .ok s => (y, .text (streamLine s ++ " " ++ ",".intercalate (s.topics.map (fun te => topicLine te.2))), [])
+  | .streams => (y, .text (",".intercalate (y.streams.map (fun se => streamLine se.2))), [])
   | .stats =>
     (y, .stats y.streams.length ((y.streams.map (fun e => e.2.topics.length)).sum)
           ((y.streams.map (fun e => e.2.nparts)).sum) ((y.streams.map (fun e => e.2.segs)).sum)
-          ((y.streams.map (fun e => e.2.msgs)).sum) ((y.streams.map (fun e => e.2.size)).sum), [])
+          ((y.streams.map (fun e => e.2.msgs)).sum) ((y.streams.map (fun e => e.2.size)).sum)
+          ((y.streams.map (fun e => (e.2.topics.map (fun t => t.2.groups.length)).sum)).sum), [])
 
 def Sys.init (cfg : Cfg) (scfg : SCfg) (now : Nat) : Sys :=
   { cfg := cfg, scfg := scfg, now := now, streams := [], streamCursor := 1 }
